@@ -350,8 +350,13 @@ def stream_gmm(chk, i, rng):
     replay = {"fn": "draw_gmm", "n": n, "loc": loc.tolist(), "scale": scale.tolist(), "pvals": p.tolist(), "seed": seed}
     verdict = model_verdict(chk, loc, scale, p)
     rs = RecRS(seed)
+    snap = [a.copy() for a in (loc, scale, p)]
     try:
         X, y = draw_gmm(n, loc, scale, p, rs)
+        if any(not np.array_equal(a, b) for a, b in zip(snap, (loc, scale, p))):
+            chk.fail("draw_gmm:argument-modified", "draw_gmm modifies one of its array arguments", replay, layer="L3")
+        if X.dtype != np.float64:
+            chk.fail("draw_gmm:dtype", f"the samples have dtype {X.dtype}", replay, layer="L3")
     except Exception as e:  # noqa
         chk.fail("draw_gmm:valid-rejected", f"a valid mixture description is rejected: {type(e).__name__}: {e}", replay, layer="L3")
         chk.count(None)
@@ -767,6 +772,175 @@ def stream_celeux(chk, i, rng):
         chk.count(("c2", n, seed))
 
 
+# ------------------------------------------------------------------ representation corners (metamorphic, L3)
+def _nested_tuple(a):
+    return tuple(_nested_tuple(x) for x in a) if isinstance(a, list) else a
+
+
+def _noncontig(a):
+    """the same values as a non-contiguous view of a larger array"""
+    a = np.asarray(a)
+    big = np.full(tuple(2 * s for s in a.shape), 7.0, dtype=a.dtype)
+    big[tuple(slice(None, None, 2) for _ in a.shape)] = a
+    return big[tuple(slice(None, None, 2) for _ in a.shape)]
+
+
+def _readonly(a):
+    b = np.array(a, copy=True)
+    b.setflags(write=False)
+    return b
+
+
+REPRS = {"list": lambda a: np.asarray(a).tolist(), "tuple": lambda a: _nested_tuple(np.asarray(a).tolist()),
+         "fortran": lambda a: np.asfortranarray(a), "noncontiguous": _noncontig, "readonly": _readonly,
+         "float32": lambda a: np.asarray(a, dtype=np.float32), "float16": lambda a: np.asarray(a, dtype=np.float16),
+         "int64": lambda a: np.asarray(a).astype(np.int64), "int32": lambda a: np.asarray(a).astype(np.int32),
+         "intlist": lambda a: np.asarray(a).astype(int).tolist(), "float64": lambda a: np.array(a, dtype=np.float64)}
+INT_REPRS = ("int64", "int32", "intlist")
+
+
+def _snapshot(o):
+    return ("arr", o.dtype.str, o.shape, o.tobytes(), o.flags["WRITEABLE"]) if isinstance(o, np.ndarray) else ("obj", repr(o))
+
+
+def _same_log(a, b):
+    if len(a) != len(b):
+        return f"{len(a)} vs {len(b)} random calls"
+    for j, ((k1, a1, r1), (k2, a2, r2)) in enumerate(zip(a, b)):
+        if k1 != k2:
+            return f"call {j}: {k1} vs {k2}"
+        for key in a1:
+            v1, v2 = a1[key], a2[key]
+            if isinstance(v1, np.ndarray) or isinstance(v2, np.ndarray):
+                if v1 is None or v2 is None or np.asarray(v1).shape != np.asarray(v2).shape or not np.array_equal(np.asarray(v1, float), np.asarray(v2, float)):
+                    return f"call {j} ({k1}): argument {key} differs"
+            elif key == "size":
+                if size_n(v1) != size_n(v2):
+                    return f"call {j} ({k1}): size differs"
+            elif isinstance(v1, (int, float, np.integer, np.floating)) and not isinstance(v1, bool):
+                if float(v1) != float(v2):
+                    return f"call {j} ({k1}): argument {key} differs"
+            elif v1 != v2:
+                return f"call {j} ({k1}): argument {key} differs"
+        if r1.shape != r2.shape or not np.array_equal(r1, r2):
+            return f"call {j} ({k1}): the answer differs"
+    return None
+
+
+def repr_compare(chk, fn_name, call, ref_args, var_args, vname, seed, replay):
+    """call(args, random_state) on the float64 reference and on another spelling of the same values"""
+    rs0 = RecRS(seed)
+    ref = call(ref_args, rs0)
+    X0, y0 = ref if isinstance(ref, tuple) else (ref, None)
+    before = [_snapshot(a) for a in var_args]
+    rs1 = RecRS(seed)
+    key = f"repr:{fn_name}:{vname}"
+    rp = dict(replay, spelling=vname, seed=seed)
+    try:
+        out = call(var_args, rs1)
+    except Exception as e:  # noqa
+        chk.fail(key + ":exception", f"{fn_name} succeeds on float64 arrays but raises {type(e).__name__}: {str(e)[:120]} on the same values given as {vname}", rp, layer="L3")
+        return
+    X1, y1 = out if isinstance(out, tuple) else (out, None)
+    if [_snapshot(a) for a in var_args] != before:
+        chk.fail(key + ":argument-modified", f"{fn_name} modifies an argument given as {vname}", rp, layer="L3")
+    if not isinstance(X1, np.ndarray) or X1.dtype != np.float64:
+        chk.fail(key + ":dtype", f"{fn_name} returns samples of dtype {getattr(X1, 'dtype', type(X1))} for parameters given as {vname} (documented: real-valued samples; float64 for the float64 spelling)", rp, layer="L3")
+    if not isinstance(X1, np.ndarray) or X1.shape != X0.shape or not np.array_equal(np.asarray(X1, float), X0):
+        d = float(np.max(np.abs(np.asarray(X1, float) - X0))) if isinstance(X1, np.ndarray) and X1.shape == X0.shape and X0.size else float("nan")
+        chk.fail(key + ":samples", f"{fn_name}: the same parameter values given as {vname} give different samples under the same random_state (max difference {d:.3g})", rp, layer="L3")
+    if y0 is not None and not (isinstance(y1, np.ndarray) and y1.dtype == y0.dtype and np.array_equal(y1, y0)):
+        chk.fail(key + ":labels", f"{fn_name}: the same parameter values given as {vname} give different labels under the same random_state", rp, layer="L3")
+    bad = _same_log(rs0.log, rs1.log)
+    if bad:
+        chk.fail(key + ":requests", f"{fn_name}: the requests to the random generator differ for parameters given as {vname}: {bad}", rp, layer="L3")
+    chk.dist["repr:" + vname] += 1
+
+
+def dyadic_spd(rng, d, integral):
+    if integral:
+        kind = int(rng.integers(0, 3))
+        if kind == 0 or d == 1:
+            return np.diag(rng.integers(1, 5, size=d)).astype(float)
+        A = rng.integers(-1, 2, size=(d, d)).astype(float)
+        return A @ A.T + np.eye(d)
+    A = rng.integers(-2, 3, size=(d, d)) / 2.0
+    return A @ A.T + np.eye(d) * 0.5
+
+
+def stream_repr(chk, i, rng):
+    kind = ["gmm1d", "gmmnd", "gmmnd", "student", "gstm", "celeux_one"][i % 6]
+    integral = (i // 6) % 2 == 0
+    seed = int(rng.integers(0, 2 ** 31 - 2))
+    n = int(rng.choice([1, 5, 12, 30]))
+    names = ["list", "tuple", "fortran", "noncontiguous", "readonly", "float32"] + (list(INT_REPRS) if integral else [])
+    if kind in ("gmm1d", "gmmnd"):
+        K = int(rng.choice([2, 3, 4]))
+        d = 1 if kind == "gmm1d" else int(rng.choice([2, 3]))
+        loc = (rng.integers(-10, 11, size=(K, d)) if integral else rng.integers(-40, 41, size=(K, d)) / 8.0).astype(float)
+        if d == 1:
+            scale = rng.choice([1.0, 4.0, 9.0] if integral else [0.25, 1.0, 2.25, 4.0, 0.0625], size=(K, 1))
+        else:
+            scale = np.array([dyadic_spd(rng, d, integral) for _ in range(K)])
+        p = {2: [0.5, 0.5], 3: [0.5, 0.25, 0.25], 4: [0.125, 0.375, 0.25, 0.25]}[K]
+        p = np.array(p)
+        replay = {"fn": "draw_gmm", "n": n, "loc": loc.tolist(), "scale": scale.tolist(), "pvals": p.tolist()}
+        call = lambda a, r: draw_gmm(n, a[0], a[1], a[2], r)
+        ref = [loc, scale, p]
+        for v in names:
+            pv = REPRS[v](p) if v not in INT_REPRS else p              # proportions are never integral
+            repr_compare(chk, "draw_gmm", call, ref, [REPRS[v](loc), REPRS[v](scale), pv], v, seed, replay)
+        if integral:                                                    # mixed spellings: only one of the two integer-typed
+            repr_compare(chk, "draw_gmm", call, ref, [REPRS["int64"](loc), scale.copy(), p.copy()], "int64-loc-only", seed, replay)
+            repr_compare(chk, "draw_gmm", call, ref, [loc.copy(), REPRS["intlist"](scale), p.tolist()], "int-scale-only", seed, replay)
+        if d > 1:                                                       # one covariance per component as a python list of arrays
+            repr_compare(chk, "draw_gmm", call, ref, [[r for r in loc], [m for m in scale], p], "list-of-arrays", seed, replay)
+            if integral:
+                repr_compare(chk, "draw_gmm", call, ref, [[r.astype(int) for r in loc], [m.astype(int) for m in scale], p], "list-of-int-arrays", seed, replay)
+    elif kind == "student":
+        d = int(rng.choice([1, 2, 3]))
+        loc = (rng.integers(-10, 11, size=d) if integral else rng.integers(-40, 41, size=d) / 8.0).astype(float)
+        scale = dyadic_spd(rng, d, integral)
+        df = float(rng.choice([1, 2, 5, 10]))
+        replay = {"fn": "multivariate_student_t", "n": n, "loc": loc.tolist(), "scale": scale.tolist(), "df": df}
+        call = lambda a, r: multivariate_student_t(n, a[0], a[1], a[2], r)
+        ref = [loc, scale, df]
+        for v in names:
+            repr_compare(chk, "multivariate_student_t", call, ref, [REPRS[v](loc), REPRS[v](scale), df], v, seed, replay)
+        for dv, nm in ((int(df), "int-df"), (np.float32(df), "float32-df"), (np.int64(df), "int64-df")):
+            repr_compare(chk, "multivariate_student_t", call, ref, [loc.copy(), scale.copy(), dv], nm, seed, replay)
+    elif kind == "gstm":
+        n = max(n, 4)
+        alpha = float(rng.choice([1, 2, 5])) if integral else float(rng.choice([0.5, 2.75, 1.125]))
+        df = float(rng.choice([1, 2, 10]))
+        replay = {"fn": "gstm", "n": n, "alpha": alpha, "df": df}
+        call = lambda a, r: gstm(a[0], a[1], a[2], r)
+        ref = [n, alpha, df]
+        alts = [("numpy-scalars", [np.int64(n), np.float64(alpha), np.float64(df)]), ("int-df", [n, alpha, int(df)]),
+                ("float32-scalars", [n, np.float32(alpha), np.float32(df)])]
+        if integral:
+            alts += [("int-alpha", [n, int(alpha), int(df)]), ("int64-alpha", [np.int32(n), np.int64(alpha), df])]
+        for nm, args in alts:
+            repr_compare(chk, "gstm", call, ref, args, nm, seed, replay)
+    else:
+        p_ = int(rng.choice([1, 3]))
+        mu = float(rng.choice([1, 2, 3])) if integral else float(rng.choice([1.75, 0.5, 2.125]))
+        replay = {"fn": "celeux_one", "n": n, "p": p_, "mu": mu}
+        call = lambda a, r: celeux_one(a[0], a[1], a[2], r)
+        ref = [n, p_, mu]
+        alts = [("numpy-scalars", [np.int64(n), np.int32(p_), np.float64(mu)]), ("float32-scalars", [n, p_, np.float32(mu)])]
+        if integral:
+            alts += [("int-mu", [n, p_, int(mu)]), ("int64-mu", [n, p_, np.int64(mu)])]
+        for nm, args in alts:
+            repr_compare(chk, "celeux_one", call, ref, args, nm, seed, replay)
+        Xa, ya = celeux_two(np.int64(n), seed)
+        Xb, yb = celeux_two(n, seed)
+        if not (np.array_equal(Xa, Xb) and np.array_equal(ya, yb) and Xa.dtype == np.float64):
+            chk.fail("repr:celeux_two:numpy-scalars:samples", "celeux_two(np.int64(n)) differs from celeux_two(n)", dict(replay, seed=seed), layer="L3")
+    chk.dist[f"repr {kind} {'integral' if integral else 'dyadic'}"] += 1
+    chk.count(("repr", kind, integral, seed))
+
+
 # ------------------------------------------------------------------ L3 statistics (6-sigma bands)
 class Band:
     def __init__(self, chk, key, replay):
@@ -894,7 +1068,7 @@ def stream_stats(chk, i, rng):
 
 STREAMS = {"regression": (stream_regression, len(REGRESSION), len(REGRESSION)),
            "gmm": (stream_gmm, 600, 6000), "invalid": (stream_invalid, 460, 4600), "student": (stream_student, 144, 1500),
-           "gstm": (stream_gstm, 160, 1600), "celeux": (stream_celeux, 120, 1200), "stats": (stream_stats, 24, 180)}
+           "gstm": (stream_gstm, 160, 1600), "celeux": (stream_celeux, 120, 1200), "repr": (stream_repr, 72, 720), "stats": (stream_stats, 24, 180)}
 
 
 def main():
@@ -924,7 +1098,7 @@ def main():
                     "covariances; uniform, Dirichlet, dyadic and within-tolerance proportions) with a recording RandomState: requests and outputs vs the extracted model, "
                     "row-source / request-parameter / seed oracles; 23 classes of invalid descriptions (raise site vs the model, must be a ValueError/TypeError); "
                     "regression cases of the repaired defects; multivariate_student_t, gstm, celeux_one, celeux_two likewise against the model and the hand-written documented "
-                    "design; large-sample 6-sigma moment/quantile/regression tests. non-trivial = a mixture run whose labels name at least two components, "
+                    "design; representation stream (the same parameter values as lists, tuples, Fortran / non-contiguous / read-only arrays, float32, int64 / int32 / python ints, numpy scalars: bit-identical samples, labels and random requests under the same random_state, float64 output, arguments unchanged); large-sample 6-sigma moment/quantile/regression tests. non-trivial = a mixture run whose labels name at least two components, "
                     "an invalid class instance, or a statistical case; distinct = distinct (generator, sizes, parameters, seed) signature",
                extra={"regenerated_ties": {"Gen/DataConstants.v": tie_of("tr_dataconstants"), "Gen/DataGenRules.v": tie_of("tr_datagen")}})
 
